@@ -409,18 +409,19 @@ theorem flow_reports_contract (e : EnvT ℝ) (aware : Bool) (hev : ∀ x, (e.obj
   have hmem : r.rep ∈ (run e.toEnv s [op']).2 := by simp [run, h']
   exact session_reports_contract e.toEnv aware hev hc s [op'] r.rep hmem
 
-/-- **What the file holds after an estimation** (`save_iterations` on, no bootstrap): if the returned
+/-- **What the file holds after an estimation** (`save_iterations` on, with or without bootstrapping —
+saving is suspended during the re-estimations): if the returned
 point is at least as good as every point at which the optimiser asked for derivatives (and the gradient
 norm there is finite), the final evaluation rewrites the file with the estimates. -/
 theorem saved_file_holds_estimates (e : EnvT ℝ) (st : FState ℝ) (hs : st.save = true) :
     let x0 := (if st.save then loadSaved e.names st.s st.it.file else st.s).idValues
     let out := e.opt (negF e.obj.like) (negFG e.obj.ev) (negFGH e.obj.ev) e.bounds x0
     gradNormFinite (e.obj.ev out.x).g = true → (∀ p ∈ out.evals, (e.obj.ev p).f ≤ (e.obj.ev out.x).f) →
-    (fstep e st (.estimate none)).1.it = { best := some (e.obj.ev out.x).f, file := some (e.names.zip out.x) } := by
-  intro x0 out hfin hbest
-  have h1 : (fstep e st (.estimate none)).1.it =
+    ∀ boot, (fstep e st (.estimate boot)).1.it = { best := some (e.obj.ev out.x).f, file := some (e.names.zip out.x) } := by
+  intro x0 out hfin hbest boot
+  have h1 : (fstep e st (.estimate boot)).1.it =
       saveEvals e.names e.obj.ev (saveEvals e.names e.obj.ev { best := none, file := st.it.file } out.evals) [out.x] := by
-    simp [fstep, hs, bootSaves, saveEvals_append, out, x0]
+    simp [fstep, hs, saveEvals_append, out, x0]
   rw [h1]
   have hle := saveEvals_best_le e.names e.obj.ev (e.obj.ev out.x).f out.evals { best := none, file := st.it.file }
     (by intro b hb; simp at hb) hbest
